@@ -272,7 +272,13 @@ class ReplSet(SyncObjConsumer):
         Remove and return an arbitrary set element.
         Raises KeyError if the set is empty.
         """
-        return self.__data.pop()
+        if not self.__data:
+            raise KeyError('pop from an empty set')
+        # set.pop() chooses by the layout of the hash table, which differs between replicas (another
+        # process, a replica rebuilt from a snapshot): every replica has to remove the same element.
+        item = min(self.__data, key=lambda x: (type(x).__name__, repr(x)))
+        self.__data.remove(item)
+        return item
 
     @replicated
     def clear(self):
